@@ -431,6 +431,21 @@ impl Builtins {
             return Err(Error::new("Not a function!!".to_string().into(), fptr_pos));
         };
 
+        // The function is called with a fixed number of arguments: refuse any
+        // other func here instead of corrupting the stack in the call.
+        let arg_count = if let C(Tuple(_, _)) = list.as_ref() { 2 } else { 1 };
+        if f.bindings.len() != arg_count {
+            return Err(Error::new(
+                format!(
+                    "map expected a func taking {} args but got a func taking {} args",
+                    arg_count,
+                    f.bindings.len()
+                )
+                .into(),
+                fptr_pos,
+            ));
+        }
+
         match *list.as_ref() {
             C(List(ref elems, ref elems_pos_list)) => {
                 let mut result_elems = Vec::new();
@@ -536,6 +551,21 @@ impl Builtins {
         } else {
             return Err(Error::new("Not a function!!".into(), fptr_pos));
         };
+
+        // The function is called with a fixed number of arguments: refuse any
+        // other func here instead of corrupting the stack in the call.
+        let arg_count = if let C(Tuple(_, _)) = list.as_ref() { 2 } else { 1 };
+        if f.bindings.len() != arg_count {
+            return Err(Error::new(
+                format!(
+                    "filter expected a func taking {} args but got a func taking {} args",
+                    arg_count,
+                    f.bindings.len()
+                )
+                .into(),
+                fptr_pos,
+            ));
+        }
 
         match *list.as_ref() {
             C(List(ref elems, ref elems_pos_list)) => {
@@ -684,6 +714,21 @@ impl Builtins {
         } else {
             return Err(Error::new("Noe a function!".into(), fptr_pos));
         };
+
+        // The function is called with a fixed number of arguments: refuse any
+        // other func here instead of corrupting the stack in the call.
+        let arg_count = if let C(Tuple(_, _)) = list.as_ref() { 3 } else { 2 };
+        if f.bindings.len() != arg_count {
+            return Err(Error::new(
+                format!(
+                    "reduce expected a func taking {} args but got a func taking {} args",
+                    arg_count,
+                    f.bindings.len()
+                )
+                .into(),
+                fptr_pos,
+            ));
+        }
 
         match *list.as_ref() {
             C(List(ref elems, ref elems_pos_list)) => {
